@@ -173,6 +173,24 @@ def rule_t1(ctx, facts):
                 for cur, sen in ((c["a"], c["b"]), (c["b"], c["a"])):
                     if sen in fl.copies_of(cur) and sen != cur:
                         sentinel_tests.setdefault(cur, set()).add((blk, c["false"]))
+        # a null test of a single-assignment copy of a holder (a temporary, or the parameter local of an inlined helper such as
+        # `is_red(x)`) is a test of the holder's value
+        single_copy = {}
+        for l in range(len(b.locals)):
+            ds = [d for d in b.defs.get(l, []) if d[1] in ("assign", "call", "arg")]
+            if len(ds) != 1 or ds[0][1] != "assign" or "use" not in ds[0][2]["rv"]:
+                continue
+            src = op_local(ds[0][2]["rv"]["use"])
+            if src is not None and src != l:
+                single_copy[l] = src
+        grew = True
+        while grew:
+            grew = False
+            for l, src in single_copy.items():
+                for table in (tests, sentinel_tests):
+                    if l in table and not table[l] <= table.get(src, set()):
+                        table.setdefault(src, set()).update(table[l])
+                        grew = True
         for c in b.calls:
             if b.is_cleanup(c.b) or not c.callee:
                 continue
